@@ -52,6 +52,10 @@ def _to_python(text):
                 out.append("C('%s')" % m.group(1))
                 i = m.end()
                 continue
+        if ch == '*' and text.startswith('**=', i):
+            out.append('**')              # the interpreter's spelling of f(**mapping)
+            i += 3
+            continue
         if ch in '([{':
             hdr = ch == '(' and text[max(0, i - 4):i] == 'EACH' and (i < 5 or not (text[i - 5].isalnum() or text[i - 5] in '_.'))
             stack.append('hdr' if hdr else '')
@@ -59,12 +63,19 @@ def _to_python(text):
             if stack:
                 stack.pop()
         elif ch == ';':
-            if stack and stack[-1] == 'hdr':
+            if stack and stack[-1] == 'hdrw':
+                out.append(')')
+            if stack and stack[-1] in ('hdr', 'hdrw'):
                 stack[-1] = ''
             out.append(',')
             i += 1
             if i < n and text[i] in ';)':
                 out.append(' None')       # an open slice bound: SLICE(x;;-1)
+            continue
+        elif ch == ' ' and stack and stack[-1] == 'hdr' and text.startswith(' in while ', i):
+            out.append(' in WHILE(')          # summarised while loop: EACH(_ in while <test>;...)
+            stack[-1] = 'hdrw'
+            i += 10
             continue
         elif ch == ' ' and stack and stack[-1] == 'hdr' and text.startswith(' if ', i):
             out.append(' and ')
@@ -115,6 +126,33 @@ def show(node):
 
 def same(a, b):
     return show(a) == show(b)
+
+
+def fold(node):
+    """Constant folding of a term: a lookup of a literal key in a literal mapping ({'a': x}.get('a', d) / {'a': x}['a'])."""
+    if node is None:
+        return None
+
+    class F(ast.NodeTransformer):
+        def visit_Call(self, n):
+            self.generic_visit(n)
+            if isinstance(n.func, ast.Attribute) and n.func.attr == 'get' and isinstance(n.func.value, ast.Dict) and 1 <= len(n.args) <= 2 and \
+                    not n.keywords and isinstance(n.args[0], ast.Constant) and all(isinstance(k, ast.Constant) for k in n.func.value.keys):
+                for k, v in zip(n.func.value.keys, n.func.value.values):
+                    if type(k.value) is type(n.args[0].value) and k.value == n.args[0].value:
+                        return v
+                return n.args[1] if len(n.args) == 2 else ast.Constant(value=None)
+            return n
+
+        def visit_Subscript(self, n):
+            self.generic_visit(n)
+            if isinstance(n.value, ast.Dict) and isinstance(n.slice, ast.Constant) and all(isinstance(k, ast.Constant) for k in n.value.keys):
+                for k, v in zip(n.value.keys, n.value.values):
+                    if type(k.value) is type(n.slice.value) and k.value == n.slice.value:
+                        return v
+            return n
+    import copy
+    return F().visit(copy.deepcopy(node))
 
 
 # ------------------------------------------------------------------------------------------------ matching
@@ -282,7 +320,15 @@ def _format_call(tmpl, args, kwargs):
         elif re.match(r'^[A-Za-z_]\w*$', field):
             key = field
         else:
-            return None
+            fm = re.match(r'^(\d*|[A-Za-z_]\w*)((?:\[\d+\])+)$', field)
+            if not fm:
+                return None
+            key = fm.group(1)
+            if key == '':
+                key = auto
+                auto += 1
+            elif key.isdigit():
+                key = int(key)
         if isinstance(key, int):
             if key >= len(args):
                 return None
@@ -291,6 +337,10 @@ def _format_call(tmpl, args, kwargs):
             if key not in kwargs:
                 return None
             v = kwargs[key]
+        fm = re.match(r'^(?:\d*|[A-Za-z_]\w*)((?:\[\d+\])+)$', field)
+        if fm:
+            for ix in re.findall(r'\[(\d+)\]', fm.group(1)):      # '{0[1]}': item lookups on the argument
+                v = ast.Subscript(value=v, slice=ast.Constant(value=int(ix)), ctx=ast.Load())
         out.extend(_value_pieces(v, spec or '', conv))
     return out
 
@@ -299,6 +349,10 @@ def _percent(tmpl, arg):
     parts = re.split(r'(%(?:\([A-Za-z_]\w*\))?[sd%])', tmpl)
     vals = list(arg.elts) if isinstance(arg, ast.Tuple) else [arg]
     named = isinstance(arg, ast.Dict)
+    nspec = len([p for p in parts if re.match(r'^%[sd]$', p or '')])
+    if not named and not isinstance(arg, ast.Tuple) and nspec > 1:
+        # '%s: %s' % pair  - the operand must be a tuple of that many items: pair[0], pair[1]
+        vals = [ast.Subscript(value=arg, slice=ast.Constant(value=i), ctx=ast.Load()) for i in range(nspec)]
     out = []
     k = 0
     for p in parts:
@@ -361,8 +415,20 @@ def pieces(node):
     if isinstance(node, ast.Call) and isinstance(node.func, ast.Attribute) and isinstance(node.func.value, ast.Constant) and \
             isinstance(node.func.value.value, str):
         recv = node.func.value.value
-        if node.func.attr == 'format' and not any(isinstance(a, ast.Starred) for a in node.args) and not any(k.arg is None for k in node.keywords):
-            r = _format_call(recv, list(node.args), {k.arg: k.value for k in node.keywords})
+        if node.func.attr in ('format', 'format_map') and not any(isinstance(a, ast.Starred) for a in node.args):
+            kw, args, ok = {}, list(node.args), True
+            if node.func.attr == 'format_map':
+                ok = len(args) == 1 and not node.keywords
+                maps, args = (args if ok else []), []
+            else:
+                maps = [k.value for k in node.keywords if k.arg is None]
+                kw = {k.arg: k.value for k in node.keywords if k.arg is not None}
+            for mp in maps:          # format(**{'a': x}) / format_map({'a': x}) with a literal mapping == format(a=x)
+                if isinstance(mp, ast.Dict) and all(isinstance(k, ast.Constant) and isinstance(k.value, str) for k in mp.keys):
+                    kw.update({k.value: v for k, v in zip(mp.keys, mp.values)})
+                else:
+                    ok = False
+            r = _format_call(recv, args, kw) if ok else None
             if r is not None:
                 return _merge(r)
         if node.func.attr == 'join' and len(node.args) == 1 and not node.keywords:
@@ -370,6 +436,12 @@ def pieces(node):
             e = each(a)
             if e is not None and len(e[3]) == 1 and not e[2]:
                 return [('J', recv, e[0], e[1], pieces(e[3][0]))]
+            mm = match(a, 'map(_F, _C)')
+            if mm is not None and isinstance(mm['_F'], ast.Attribute) and mm['_F'].attr == 'format' and isinstance(mm['_F'].value, ast.Constant):
+                # sep.join(map(template.format, coll)) == sep.join(template.format(x) for x in coll)
+                var = ast.Name(id='_B0', ctx=ast.Load())
+                call = ast.Call(func=mm['_F'], args=[var], keywords=[])
+                return [('J', recv, var, mm['_C'], pieces(call))]
             if isinstance(a, (ast.List, ast.Tuple)) and not any(isinstance(x, ast.Starred) for x in a.elts) and \
                     not any(each(x) is not None for x in a.elts):
                 out = []
